@@ -12,7 +12,7 @@ open Model Model.Py Model.Md6 Proofs.Lemmas Proofs.Lemmas.Md6Bits Proofs.Lemmas.
 /-- the hypotheses under which the MD6 object is inside the report's parameter space -/
 structure Dom (d L r : Nat) (key : List Nat) : Prop where
   hd : d < 2 ^ 12
-  hL : L < 2 ^ 8
+  hL : L < 255
   hr1 : 1 ≤ r
   hr : r < 2 ^ 12
   hkey : key.length ≤ 64
@@ -121,8 +121,8 @@ theorem par_refines {d L r : Nat} {key : List Nat} (hdom : Dom d L r key) (level
   simp only [bind, Except.bind, hmapM, List.length_map, List.length_range]
   -- control words
   have hz : (if j = 1 then 1 else 0 : Nat) < 2 ^ 4 := by split <;> omega
-  have hV0 := Md6V.V0_eq d key.length (if j = 1 then 1 else 0) L r hdom.hr hdom.hL hz (by have := hdom.hkey; omega) hdom.hd
-  have hVl := Md6V.setP_V0 d key.length (if j = 1 then 1 else 0) L r (j * 4096 - m) hdom.hr hdom.hL hz (by omega)
+  have hV0 := Md6V.V0_eq d key.length (if j = 1 then 1 else 0) L r hdom.hr (by have := hdom.hL; omega) hz (by have := hdom.hkey; omega) hdom.hd
+  have hVl := Md6V.setP_V0 d key.length (if j = 1 then 1 else 0) L r (j * 4096 - m) hdom.hr (by have := hdom.hL; omega) hz (by omega)
     (by have := hdom.hkey; omega) hdom.hd
   have hsz : (Md6.new d key L (some r)).size = d := rfl
   have hkl : (Md6.new d key L (some r)).keylen = key.length := rfl
@@ -174,5 +174,201 @@ theorem par_refines {d L r : Nat} {key : List Nat} (hdom : Dom d L r key) (level
     congr 1
     rw [flatten_map_map, packWords_ofWords]
     simp only [Spec.Md6.par, hj]
+
+/-- bits of a big-endian integer: with the accumulator -/
+theorem foldl_be_testBit (s : List Nat) (hs : ∀ x ∈ s, x < 256) (acc t : Nat) :
+    (s.foldl (fun a x => a * 256 + x) acc).testBit t =
+      if t < 8 * s.length then sbit s (8 * s.length - 1 - t) else acc.testBit (t - 8 * s.length) := by
+  induction s generalizing acc with
+  | nil => simp
+  | cons b bs ih =>
+    have hb := hs b (by simp)
+    rw [List.foldl_cons, ih (fun x hx => hs x (by simp [hx]))]
+    have e : acc * 256 + b = acc <<< 8 ||| b := by
+      rw [← Nat.shiftLeft_add_eq_or_of_lt (show b < 2 ^ 8 from hb), Nat.shiftLeft_eq]
+    simp only [List.length_cons]
+    by_cases h1 : t < 8 * bs.length
+    · have h2 : t < 8 * (bs.length + 1) := by omega
+      rw [if_pos h1, if_pos h2]
+      unfold sbit
+      have e1 : (8 * (bs.length + 1) - 1 - t) / 8 = (8 * bs.length - 1 - t) / 8 + 1 := by omega
+      have e2 : (8 * (bs.length + 1) - 1 - t) % 8 = (8 * bs.length - 1 - t) % 8 := by omega
+      rw [e1, e2]; simp
+    · rw [if_neg h1, e, Nat.testBit_or, Nat.testBit_shiftLeft]
+      by_cases h2 : t < 8 * (bs.length + 1)
+      · rw [if_pos h2]
+        have : ¬ (8 ≤ t - 8 * bs.length) := by omega
+        unfold sbit
+        have e1 : (8 * (bs.length + 1) - 1 - t) / 8 = 0 := by omega
+        have e2 : 7 - (8 * (bs.length + 1) - 1 - t) % 8 = t - 8 * bs.length := by omega
+        simp [this, e1, e2]
+      · rw [if_neg h2]
+        have h3 : 8 ≤ t - 8 * bs.length := by omega
+        have hbt : b.testBit (t - 8 * bs.length) = false :=
+          Nat.testBit_lt_two_pow (Nat.lt_of_lt_of_le hb (Nat.pow_le_pow_right (n := 2) (by omega) h3))
+        simp [h3, hbt]
+        rw [show t - 8 * bs.length - 8 = t - 8 * (bs.length + 1) by omega]
+
+/-- bits of the big-endian byte string of v (nb bytes) -/
+theorem sbit_beBytes (v nb k : Nat) (hk : k < 8 * nb) :
+    sbit ((List.range nb).map fun i => (v / 256 ^ (nb - 1 - i)) % 256) k = v.testBit (8 * nb - 1 - k) := by
+  have hi : k / 8 < nb := by omega
+  simp only [sbit, List.getD_eq_getElem?_getD, List.getElem?_map, List.getElem?_range hi, Option.map_some,
+    Option.getD_some]
+  rw [show (256 : Nat) = 2 ^ 8 from rfl, ← Nat.pow_mul, Nat.testBit_mod_two_pow, Nat.testBit_div_two_pow]
+  have : 7 - k % 8 < 8 := by omega
+  simp only [this, decide_true, Bool.true_and]
+  congr 1; omega
+
+theorem chop_refines (d : Nat) (hd : d ≤ 1024) (C : List Spec.Md6.Word) (hC : C.length = 16) :
+    Md6.chop d (Spec.Md6.ofWords C) = .ok (Spec.Md6.chop d C) := by
+  have hlen : (Spec.Md6.ofWords C).length = 128 := by rw [ofWords_length, hC]
+  have hlt := ofWords_lt C
+  unfold Spec.Md6.chop
+  generalize Spec.Md6.ofWords C = M at hlen hlt
+  unfold Md6.chop
+  simp only [Bits.ofBytes, load_neg1, bind, Except.bind, pure, Except.pure, if_neg (Nat.not_lt.2 hd), hlen]
+  congr 1
+  have hv := bsVal_lt M hlt
+  rw [hlen] at hv
+  simp only [Bits.shr, Bits.setSize, Bits.mask, show 8 * 128 = 1024 from rfl] at hv ⊢
+  have hx : (bsVal M >>> (1024 - d) &&& (2 ^ 1024 - 1)) % 2 ^ d < 2 ^ d := Nat.mod_lt _ (Nat.two_pow_pos d)
+  apply bytes_ext
+  · simp [toBytes_length]
+  · exact toBytes_lt _
+  · intro x hx'
+    simp only [List.mem_map, List.mem_range] at hx'
+    obtain ⟨i, _, rfl⟩ := hx'
+    exact Nat.mod_lt _ (by omega)
+  · intro k hk
+    rw [toBytes_length] at hk
+    simp only at hk
+    rw [toBytes_sbit _ _ hx k hk]
+    rw [sbit_beBytes _ _ k hk, Nat.testBit_mod_two_pow, Nat.testBit_and, Nat.testBit_shiftRight,
+      Nat.testBit_two_pow_sub_one, Nat.testBit_mul_two_pow, Nat.testBit_mod_two_pow,
+      foldl_be_testBit M hlt, hlen, bsVal_testBit M hlt]
+    by_cases hkd : k < d
+    · have h1 : 8 * ((d + 7) / 8) - d ≤ 8 * ((d + 7) / 8) - 1 - k := by omega
+      have h2 : 8 * ((d + 7) / 8) - 1 - k - (8 * ((d + 7) / 8) - d) < d := by omega
+      have h3 : 8 * ((d + 7) / 8) - 1 - k - (8 * ((d + 7) / 8) - d) < 8 * 128 := by omega
+      have h4 : 1024 - d + k < 1024 := by omega
+      simp only [hkd, h1, h2, h3, decide_true, Bool.true_and, if_true]
+      have h5 : k < 1024 := by omega
+      have h6 : 8 * 128 - 1 - (8 * ((d + 7) / 8) - 1 - k - (8 * ((d + 7) / 8) - d)) = 1024 - d + k := by omega
+      clear hv hx
+      simp only [h5, h6, decide_true, Bool.and_true]
+    · have h1 : ¬ (8 * ((d + 7) / 8) - d ≤ 8 * ((d + 7) / 8) - 1 - k) := by omega
+      simp [hkd, h1]
+
+theorem chop_length (d : Nat) (C : List Spec.Md6.Word) : (Spec.Md6.chop d C).length = (d + 7) / 8 := by
+  simp [Spec.Md6.chop]
+
+theorem steps_size (t : Nat) (st : Array Spec.Md6.Word × Spec.Md6.Word) :
+    ((List.range t).foldl Spec.Md6.step st).1.size = st.1.size + t := by
+  induction t with
+  | zero => simp
+  | succ t ih =>
+    rw [List.range_succ, List.foldl_append]
+    simp only [List.foldl_cons, List.foldl_nil, Spec.Md6.step, Array.size_push, ih]
+    omega
+
+theorem compress_length (r : Nat) (hr : 1 ≤ r) (N : List Spec.Md6.Word) :
+    (Spec.Md6.compress r N).length = 16 := by
+  simp only [Spec.Md6.compress, List.length_drop, Array.length_toList, steps_size, List.size_toArray, Spec.Md6.c]
+  omega
+
+theorem seq_refines {d L r : Nat} {key : List Nat} (hdom : Dom d L r key) (hd : d ≤ 1024)
+    (M : List Nat) (hM : ∀ x ∈ M, x < 256) (bitlen : Option Nat)
+    (hbl : bitlen.getD (8 * M.length) ≤ 8 * M.length) (hlen : 8 * M.length < 2 ^ 64) :
+    SEQ (Md6.new d key L (some r)) M bitlen =
+      .ok (Spec.Md6.chop d (Spec.Md6.seq ⟨d, key, L, r⟩ M (bitlen.getD (8 * M.length)))) := by
+  generalize hm : bitlen.getD (8 * M.length) = m at hbl
+  have hnb := Md6Pad.nullBlocks_spec 384 (by omega) M hM bitlen (by rw [hm]; exact hbl)
+  rw [hm] at hnb
+  simp only [show 8 * 384 = 3072 from rfl] at hnb
+  generalize hj : Spec.Md6.numBlocks 3072 m = j at hnb
+  have hj1 : 1 ≤ j := hj ▸ numBlocks_pos 3072 m
+  have hj2 : j < 2 ^ 56 := by
+    have := numBlocks_le 384 m (by omega)
+    simp only [show 8 * 384 = 3072 from rfl, hj] at this
+    omega
+  have hp : j * 3072 - m ≤ 3072 := by
+    have h := Md6Pad.numBlocks_eq 384 m (by omega)
+    simp only [show 8 * 384 = 3072 from rfl, hj] at h
+    split at h
+    · omega
+    · have := Nat.div_add_mod (m - 1) 3072
+      have := Nat.mod_lt (m - 1) (show 3072 > 0 by omega)
+      omega
+  have hblk : ∀ i, i < j → (Spec.Md6.block 3072 M m i).length = 8 * 48 := by
+    intro i hi
+    exact Md6Pad.block_length 384 M m hbl i (by simpa [show 8 * 384 = 3072 from rfl, hj] using hi) (by omega)
+  have hmapM : ((List.range j).map (Spec.Md6.block 3072 M m)).mapM (unpackQ 48)
+      = .ok (((List.range j).map (Spec.Md6.block 3072 M m)).map fun X => (chunks 8 X).map beInt) := by
+    apply mapM_ok
+    intro X hX
+    simp only [List.mem_map, List.mem_range] at hX
+    obtain ⟨i, hi, rfl⟩ := hX
+    exact (unpackQ_toWords 48 _ (hblk i hi)).1
+  unfold SEQ
+  rw [hnb]
+  simp only [bind, Except.bind, hmapM, List.length_map, List.length_range]
+  have hkl8 : key.length < 2 ^ 8 := by have := hdom.hkey; omega
+  have hL8 : L < 2 ^ 8 := by have := hdom.hL; omega
+  have hV0 := Md6V.V0_eq d key.length 0 L r hdom.hr hL8 (by omega) hkl8 hdom.hd
+  have hVp := Md6V.setP_V0 d key.length 0 L r (j * 3072 - m) hdom.hr hL8 (by omega) (by omega) hkl8 hdom.hd
+  have hVl := Md6V.setZ1_setP_V0 d key.length L r (j * 3072 - m) hdom.hr hL8 (by omega) hkl8 hdom.hd
+  rw [hVp] at hVl
+  simp only [bind, Except.bind] at hVl
+  have hsz : (Md6.new d key L (some r)).size = d := rfl
+  have hkl : (Md6.new d key L (some r)).keylen = key.length := rfl
+  have hL' : (Md6.new d key L (some r)).L = L := rfl
+  have hr' : (Md6.new d key L (some r)).rounds = r := rfl
+  simp only [hsz, hkl, hL', hr']
+  rw [hVp]
+  simp only []
+  rw [hVl]
+  simp only []
+  obtain ⟨hK1, hK2⟩ := K_words d L (some r) key hdom.hkey
+  -- the chained fold, related step by step
+  have hsim := Md6F.foldl_range_sim
+    (fun (_ : Nat) (Cm : List Nat) (Cs : List Spec.Md6.Word) => Cm = Cs.map (·.toNat) ∧ Cs.length = 16)
+    (fun C i => seqNode (Md6.new d key L (some r))
+        (if i = j - 1 then ⟨(Spec.Md6.V r L 1 (j * 3072 - m) key.length d).toNat, 64⟩ else V0 d key.length 0 L r) i C
+        ((((List.range j).map (Spec.Md6.block 3072 M m)).map fun X => (chunks 8 X).map beInt).getD i []))
+    (fun C i => Spec.Md6.compress r (Spec.Md6.Q ++ Spec.Md6.keyWords key ++ [Spec.Md6.U (L + 1) i] ++
+        [Spec.Md6.V r L (if i = j - 1 then 1 else 0) (if i = j - 1 then j * 3072 - m else 0) key.length d]
+        ++ C ++ Spec.Md6.toWords (Spec.Md6.block 3072 M m i)))
+    j (List.replicate 16 0) (List.replicate 16 (0 : Spec.Md6.Word))
+    ⟨by simp, by simp⟩
+    (by
+      intro i Cm Cs hi ⟨hC1, hC2⟩
+      have hget : (((List.range j).map (Spec.Md6.block 3072 M m)).map fun X => (chunks 8 X).map beInt).getD i []
+          = (chunks 8 (Spec.Md6.block 3072 M m i)).map beInt := by
+        simp [List.getD_eq_getElem?_getD, hi]
+      have hw := unpackQ_toWords 48 _ (hblk i hi)
+      have hBl : ((chunks 8 (Spec.Md6.block 3072 M m i)).map beInt).length = 48 := by
+        have := congrArg List.length hw.2
+        rw [toWords_length 48 _ (hblk i hi)] at this
+        simpa using this
+      have hCm : Cm.length = 16 := by rw [hC1]; simpa using hC2
+      refine ⟨?_, compress_length r hdom.hr1 _⟩
+      rw [hget, seqNode_eq _ hK2 _ _ _ _ hCm hBl, hr', hL']
+      rw [List.append_assoc (Spec.Md6.Q ++ Spec.Md6.keyWords key ++ [Spec.Md6.U (L + 1) i] ++
+        [Spec.Md6.V r L (if i = j - 1 then 1 else 0) (if i = j - 1 then j * 3072 - m else 0) key.length d])]
+      apply node_refines hdom
+      · apply BitVec.eq_of_toNat_eq
+        rw [BitVec.toNat_ofNat, Md6V.U_eq (L + 1) i (by have := hdom.hL; omega) (by omega)]
+      · split
+        · simp
+        · rw [hV0]; simp
+      · rw [List.map_append, hw.2, hC1, List.map_map]
+        congr 1
+        rw [List.map_congr_left (g := id) (by intro x _; simp [BitVec.ofNat_toNat])]
+        simp
+      · simp [hCm, hBl])
+  obtain ⟨hC1, hC2⟩ := hsim
+  rw [hC1, packWords_ofWords, chop_refines d hd _ hC2]
+  simp only [Spec.Md6.seq, hj, Spec.Md6.c]
 
 end Proofs.Lemmas.Md6Mode
